@@ -31,7 +31,7 @@ struct Config {
   long long runs = 0;
   double budget_s = 0;
   int workers = 16;
-  std::string evidence, replays = "replays", known = "known_findings.json", logs = "build/logs";
+  std::string evidence, replays = "replays", known = "known_findings.json", logs = "build/logs", dump_hashes;
   int max_report = 6;
 };
 
@@ -62,8 +62,6 @@ std::string crash_property(int ph, const std::string &focus) {
     default: return "";
   }
 }
-
-std::string self_exe() { char buf[4096]; ssize_t n = readlink("/proc/self/exe", buf, sizeof buf - 1); buf[n > 0 ? n : 0] = 0; return buf; }
 
 // first source position inside the repository named by a sanitizer / assertion report: "file.cpp:line"
 std::string crash_site(const std::string &err) {
@@ -355,6 +353,7 @@ int check_main(Config cfg) {
   long long foreign_crashes = 0;
   int infra_errors = 0;
   std::map<std::string, int> cand_per_class;
+  std::map<std::pair<long long, long long>, uint64_t> all_hashes;
   const double HANG_S = 300;
 
   auto handle_line = [&](int k, const std::string &line) {
@@ -370,6 +369,7 @@ int check_main(Config cfg) {
       evaluations++;
       sim_steps += o.sim_steps;
       stats.merge(o.stats);
+      if (!cfg.dump_hashes.empty()) all_hashes[{run, sub}] = o.log_hash;
       if (o.nontrivial) { nontrivial++; distinct_nt.insert(o.log_hash); }
       if (o.state_sig) distinct_sigs.insert(o.state_sig);
       if (!sample.empty() && samples.size() < 3) samples.push_back(Json::parse(sample).s);
@@ -436,6 +436,11 @@ int check_main(Config cfg) {
   double t_explore = now_s() - t0;
   fprintf(stderr, "[check %s] explored %lld runs in %.1fs (%lld nontrivial, %zu distinct), %zu violation candidates, %lld foreign crashes\n", cfg.prop.c_str(), evaluations, t_explore, nontrivial, distinct_nt.size(), cands.size(), foreign_crashes);
 
+  if (!cfg.dump_hashes.empty()) {
+    std::string t;
+    for (auto &kv : all_hashes) t += std::to_string(kv.first.first) + " " + std::to_string(kv.first.second) + " " + hex64(kv.second) + "\n";
+    write_file(cfg.dump_hashes, t);
+  }
   // ------------------------------------------------------------ candidates: gate, minimise, replay
   std::vector<Known> known = load_known(cfg.known);
   int violations = 0, known_hits = 0;
@@ -489,6 +494,54 @@ int check_main(Config cfg) {
     fflush(stdout);
   }
 
+  // ------------------------------------------------------------ C18 supplementary stage: free-running threads under TSan
+  long long tsan_sets = 0, tsan_reports = 0;
+  if (cfg.prop == "C18" && cfg.tier == "thorough" && access("build/tsan/theosim", X_OK) == 0) {
+    const int P = 8; const long long per = getenv("VERIF_TSAN_SETS") ? atoll(getenv("VERIF_TSAN_SETS")) : 150;
+    std::string cmd;
+    for (int i = 0; i < P; i++)
+      cmd += "timeout 600 build/tsan/theosim mtfree C18 " + std::to_string(cfg.seed) + " " + std::to_string(i * per) + " " + std::to_string((i + 1) * per) + " thorough > " + cfg.logs + "/C18.tsan." + std::to_string(i) + ".log 2>&1 & ";
+    cmd += "wait";
+    int rc = system(cmd.c_str()); (void)rc;
+    for (int i = 0; i < P; i++) {
+      std::string log;
+      try { log = read_file(cfg.logs + "/C18.tsan." + std::to_string(i) + ".log"); } catch (...) { continue; }
+      long long lastB = -1, lastE = -1; size_t pos = 0;
+      while (pos < log.size()) {
+        size_t e = log.find('\n', pos); if (e == std::string::npos) e = log.size();
+        std::string line = log.substr(pos, e - pos); pos = e + 1;
+        if (line.rfind("B ", 0) == 0) lastB = atoll(line.c_str() + 2);
+        if (line.rfind("E ", 0) == 0) { lastE = atoll(line.c_str() + 2); tsan_sets++; int v = 0; long long r; if (sscanf(line.c_str(), "E %lld %d", &r, &v) == 2 && v) lastB = r, lastE = -2; }
+      }
+      bool report = log.find("WARNING: ThreadSanitizer") != std::string::npos;
+      if ((report && lastB != lastE) || lastE == -2) {
+        // confirm: the same task set twice more
+        int again = 0;
+        for (int t = 0; t < 2; t++) {
+          std::string c2 = "timeout 300 build/tsan/theosim mtfree C18 " + std::to_string(cfg.seed) + " " + std::to_string(lastB) + " " + std::to_string(lastB + 1) + " thorough > " + cfg.logs + "/C18.tsan.confirm.log 2>&1";
+          int r2 = system(c2.c_str());
+          std::string l2; try { l2 = read_file(cfg.logs + "/C18.tsan.confirm.log"); } catch (...) {}
+          if ((WIFEXITED(r2) && WEXITSTATUS(r2) == 66) || l2.find("WARNING: ThreadSanitizer") != std::string::npos || l2.find(" 1 ") != std::string::npos) again++;
+        }
+        if (again == 2) {
+          tsan_reports++;
+          Plan p = gen_plan("C18", cfg.seed, lastB, 0, "thorough");
+          p.knobs["free_running"] = 1;
+          Json rj = Json::obj();
+          std::string head = log.substr(log.find("WARNING: ThreadSanitizer") == std::string::npos ? 0 : log.find("WARNING: ThreadSanitizer"), 1500);
+          rj.set("property", "C18").set("oracle", "tsan_report_free_running").set("message", head).set("found_by", "supplementary ThreadSanitizer stage (uncontrolled schedule; runtime monitoring), task set of run " + std::to_string(lastB))
+              .set("replay_cmd", "./check replay <this file>   (runs the task set on free-running threads in the TSan build)").set("plan", plan_to_json(p));
+          std::string path = cfg.replays + "/C18-tsan-" + std::to_string(cfg.seed) + "-" + std::to_string(lastB) + ".json";
+          write_file(path, rj.dump(1));
+          violations++;
+          printf("VIOLATION property=C18 replay=%s\n", path.c_str());
+          fprintf(stderr, "  ThreadSanitizer report repeated twice for the task set of run %lld\n", lastB);
+        } else fprintf(stderr, "[check] a ThreadSanitizer report for run %lld did not repeat (%d/2); not raised\n", lastB, again);
+      }
+    }
+    fprintf(stderr, "[check C18] supplementary TSan stage: %lld task sets on free-running threads, %lld confirmed reports\n", tsan_sets, tsan_reports);
+  }
+
   // ------------------------------------------------------------ evidence
   double wall = now_s() - t0;
   Json ev = Json::obj();
@@ -517,6 +570,7 @@ int check_main(Config cfg) {
   for (const char *s : {"Compiler/src/lex.yy.c", "scan.cpp", "macro.cpp", "ParserGenerator/*", "parse.cpp", "gen.cpp", "compiler.cpp", "VM/src/vm.cpp", "program.cpp", "instr.cpp"}) real.push(s);
   Json stub = Json::arr();
   for (const char *s : {"file store (std::map handed to Theo::compile - the library's own interface)", "IDE / debugger client (scripted op list)", "caller-thread scheduler (W3)", "CLI/cli.cpp is not run"}) stub.push(s);
+  if (cfg.prop == "C18") cov.set("tsan_stage", cfg.tier == "thorough" ? "supplementary runtime monitoring outside the deterministic core: " + std::to_string(tsan_sets) + " task sets on free-running threads in the -fsanitize=thread build, " + std::to_string(tsan_reports) + " confirmed reports" : std::string("not run in the quick tier"));
   cov.set("real_components", real).set("stub_components", stub).set("foreign_crashes", foreign_crashes).set("known_findings", known_hits).set("exhaustive", false);
   ev.set("coverage", cov);
   Json as = Json::arr();
@@ -559,8 +613,24 @@ int driver_main(int argc, char **argv) {
       if (a == "--replays") cfg.replays = argv[i + 1];
       if (a == "--known") cfg.known = argv[i + 1];
       if (a == "--logs") cfg.logs = argv[i + 1];
+      if (a == "--dump-hashes") cfg.dump_hashes = argv[i + 1];
     }
     return check_main(cfg);
+  }
+  if (cmd == "mtfree" && argc >= 6) {
+    // supplementary stage of C18 (runtime monitoring, not simulation): the same task sets on free-running
+    // threads; meant to be run from the ThreadSanitizer build, which aborts with exit code 66 on a report
+    std::string prop = argv[2]; uint64_t seed = strtoull(argv[3], 0, 10); long long a = atoll(argv[4]), b = atoll(argv[5]);
+    std::string tier = argc > 6 ? argv[6] : "thorough";
+    int slot = 0; g_phase_slot = &slot;
+    for (long long r = a; r < b; r++) {
+      Plan p = gen_plan(prop, seed, r, 0, tier);
+      p.knobs["free_running"] = 1;
+      printf("B %lld\n", r); fflush(stdout);
+      Outcome o = exec_plan(p, false);
+      printf("E %lld %d %s\n", r, o.violated, o.oracle.c_str()); fflush(stdout);
+    }
+    return 0;
   }
   if (cmd == "hashes" && argc >= 6) {
     // determinism self-test: print "run sub hash" for a range of runs, in-process, no workers
